@@ -69,9 +69,9 @@ MODELS = {
     "C08": ([("FilterNode", "FilterNode-imm-quick.cfg"), ("FilterNode", "FilterNode-def-quick.cfg"), ("Controller", "Controller-relist.cfg")],
             [("FilterNode", "FilterNode-imm.cfg"), ("FilterNode", "FilterNode-def.cfg"), ("Controller", "Controller-relist.cfg")]),
     "C10": ([("Tree", "Tree-live.cfg")], [("Tree", "Tree-live.cfg"), ("Tree", "Tree-safety.cfg")]),
-    "C11": ([("Tree", "Tree-live.cfg")], [("Tree", "Tree-live.cfg"), ("Tree", "Tree-safety.cfg")]),
-    "C12": ([("Tree", "Tree-live.cfg"), ("Lister", "Lister.cfg"), ("Lifecycle", "Lifecycle.cfg")],
-            [("Tree", "Tree-live.cfg"), ("Tree", "Tree-safety.cfg"), ("Lister", "Lister.cfg"), ("Lifecycle", "Lifecycle.cfg")]),
+    "C11": ([("Tree", "Tree-live.cfg"), ("JoinLife", "JoinLife.cfg")], [("Tree", "Tree-live.cfg"), ("Tree", "Tree-safety.cfg"), ("JoinLife", "JoinLife.cfg")]),
+    "C12": ([("Tree", "Tree-live.cfg"), ("Lister", "Lister.cfg"), ("Lifecycle", "Lifecycle.cfg"), ("JoinLife", "JoinLife.cfg")],
+            [("Tree", "Tree-live.cfg"), ("Tree", "Tree-safety.cfg"), ("Lister", "Lister.cfg"), ("Lifecycle", "Lifecycle.cfg"), ("JoinLife", "JoinLife.cfg")]),
     "C13": ([("Lister", "Lister.cfg")], [("Lister", "Lister.cfg")]),
     "C14": ([("Controller", "Controller-relist.cfg")], [("Controller", "Controller-relist.cfg"), ("Controller", "Controller-relist-big.cfg")]),
     "C15": ([("CacheActor", "CacheActor.cfg")], [("CacheActor", "CacheActor.cfg")]),
@@ -248,7 +248,12 @@ def check_tree(prop, tier, replay):
     if prop == "C12":
         # joins: closing a join result, and asking for a join on bases that have shut down, leaves nothing behind
         import fam_filters
-        js = fam_filters.run_joins(res, tier, {"join-leak", "join-on-stopped-base", "join-close-hangs", "join-close-stops-base", "crash"})
+        js = fam_filters.run_joins(res, tier, {"join-leak", "join-on-stopped-base", "join-close-hangs", "join-close-stops-base", "join-closed-by-source", "crash"})
+        nscen += js["scenarios"]
+    if prop == "C11":
+        # joins (spec/JoinLife.tla): closing a join never stops its bases, a source that stops never stops the join
+        import fam_filters
+        js = fam_filters.run_joins(res, tier, {"join-close-stops-base", "join-closed-by-source", "crash"})
         nscen += js["scenarios"]
     if prop == "C10":
         # the typed layer's subscriptions: a never-reading typed subscriber keeps the first buffer, siblings see everything
